@@ -292,11 +292,12 @@ def nterminal_particles(out):
     return glob, local
 
 
-def explained_by_neutral_nterminus(ref, other, options):
+def explained_by_neutral_nterminus(ref, other, options, elsewhere_explained=()):
     """Is every difference between the two runs confined to what follows from WHICH of the equivalent hydrogens of a charged
     N-terminus was discarded for the requested neutral terminus?  That is: same molecules, same atoms; only particles of
-    N-terminal residues displaced, by at most 0.1 A; only two-body interactions (elastic bonds, constraints) that involve such a
-    particle differ, in their length by at most 0.005 nm (and, for distance-dependent force constants, by at most 5 %)."""
+    N-terminal residues displaced, by at most 0.1 A; only bonds / constraints / angles / dihedrals that involve such a particle
+    differ, and only in the value measured on the structure: a length by at most 0.005 nm (and, for distance-dependent force
+    constants, by at most 5 %), a reference angle by at most 2 degrees."""
     opts = list(options)
     neutral = '-nt' in opts or any(o == '-nter' and opts[i + 1] == 'NH2-ter' for i, o in enumerate(opts[:-1]))
     if not neutral:
@@ -310,6 +311,8 @@ def explained_by_neutral_nterminus(ref, other, options):
             return False, {}
         dev = max(abs(a[k] - c[k]) for k in 'xyz')
         if not dev <= 2.5e-3:
+            if i in elsewhere_explained and i not in glob:
+                continue        # a particle displaced by the other recorded mechanism (coordinates only)
             if i not in glob or not dev <= 0.1:
                 return False, {}
             displaced.append([a['name'], a['resname'], a['resid'], round(dev, 4)])
@@ -334,22 +337,24 @@ def explained_by_neutral_nterminus(ref, other, options):
                     del rest[hit]
             if not unmatched and not rest:
                 continue
-            if sname not in ('bonds', 'constraints') or len(unmatched) != len(rest):
+            arity = {'bonds': 2, 'constraints': 2, 'angles': 3, 'dihedrals': 4}.get(sname)
+            if arity is None or len(unmatched) != len(rest):
                 return False, {}
             for toks, g in unmatched:
-                if len(toks) < 4 or not (toks[0] in nt or toks[1] in nt):
+                if len(toks) < arity + 2 or not any(t in nt for t in toks[:arity]):
                     return False, {}
                 hit = None
                 for j, (t2, g2) in enumerate(rest):
-                    if g2 != g or len(t2) != len(toks) or t2[:3] != toks[:3]:
+                    if g2 != g or len(t2) != len(toks) or t2[:arity + 1] != toks[:arity + 1]:
                         continue
-                    la, lb = num(toks[3]), num(t2[3])
-                    if la is None or lb is None or abs(la - lb) > 0.005:
+                    # the value taken from the structure: a length (nm) or an angle (degrees) measured on the displaced particle
+                    la, lb = num(toks[arity + 1]), num(t2[arity + 1])
+                    if la is None or lb is None or abs(la - lb) > (0.005 if arity == 2 else 2.0):
                         continue
                     ok = True
-                    for x, y in zip(toks[4:], t2[4:]):
+                    for x, y in zip(toks[arity + 2:], t2[arity + 2:]):
                         fx, fy = num(x), num(y)
-                        if x != y and (fx is None or fy is None or abs(fx - fy) > 0.05 * max(abs(fx), abs(fy))):
+                        if x != y and (arity != 2 or fx is None or fy is None or abs(fx - fy) > 0.05 * max(abs(fx), abs(fy))):
                             ok = False
                     if ok:
                         hit = j
@@ -724,8 +729,29 @@ def run_case(params):
                                 dict(desc, detail=p[1], **info_))
                     continue
             if p and kind in ('rename-h', 'rename-h-file'):
-                ok_, info_ = explained_by_neutral_nterminus(ref, other, params['options'])
+                # particles displaced by the first recorded mechanism (a hydrogen within bond distance of two heavy atoms): they may
+                # occur next to the N-terminal one in the same run
+                moved, ordinals, nres = moved_residues(ref, other)
+                suspects = overbonded_hydrogen_residues(orig_pdb)
+                by_ordinal = ('#n', nres) in suspects
+                elsewhere, seen_res, prev_ = set(), -1, None
+                for i_, a_ in enumerate(ref['pdb']['atoms']):
+                    key_ = (a_['chain'], a_['resid'], a_['resname'])
+                    if key_ != prev_:
+                        seen_res, prev_ = seen_res + 1, key_
+                    if (by_ordinal and ('#', seen_res) in suspects) or \
+                            (not by_ordinal and ((a_['chain'], a_['resid']) in suspects or ('', a_['resid']) in suspects)):
+                        elsewhere.add(i_)
+                ok_, info_ = explained_by_neutral_nterminus(ref, other, params['options'], elsewhere)
                 if ok_:
+                    glob_, _ = nterminal_particles(ref)
+                    both = [i_ for i_ in elsewhere - glob_
+                            if max(abs(ref['pdb']['atoms'][i_][k] - other['pdb']['atoms'][i_][k]) for k in 'xyz') > 2.5e-3]
+                    if both:
+                        b.violation('rename-h/hydrogen-within-bond-distance-of-two-heavy-atoms',
+                                    'a hydrogen whose name the force field does not know is bonded by distance to two heavy atoms, '
+                                    'dropped and rebuilt without coordinates: particle positions depend on hydrogen names',
+                                    dict(desc, displaced_particles=len(both), together_with='the neutral N-terminus finding'))
                     b.violation('rename-h/neutral-n-terminus-discards-a-name-dependent-hydrogen',
                                 'a neutral N-terminus is requested for a structure whose N-terminus carries three hydrogens: which of the '
                                 'three equivalent hydrogens is discarded follows their names, and the terminal particle moves with it',
